@@ -72,6 +72,7 @@ def check(run):
         run.case(s[0][:300], True, key=s[0])
         run.count("direct-block" if k is not None else "api-session")
         E.record_failures(run, s, judge_valid(s, r, k), seen)
+    E.scale_check(run, seen, "valid")
 
 
 def replay(run, data):
